@@ -264,6 +264,12 @@ def run(repo, rep, tier):
                   sample={'rule': 'drift', 'scenario': desc, 'paths': len(finals)} if want_label is None else None)
     rep.samples.append({'rule': 'drift', 'scenarios': len(scenarios), 'paths': npaths})
 
+    # ---- the group-exchange modulus a policy pins for each method is the one measured for THAT method (shared with C12: props/_gexmodel.py) -------------
+    from props import _gexmodel
+    _ng, _badg = _gexmodel.both_methods_problems(repo, rep)
+    rep.check('modulus-capture', 'each group-exchange method is measured by its own probes (%d servers handing out a different group per method)' % _ng, not _badg, repo.func('gextest', 'GEXTest.run'),
+              'the modulus size a policy records for one group-exchange method is not the one measured for it -- %s: %s -- so a peer that differs in that size passes the policy' % (_badg[0] if _badg else ('', '')),
+              stmt='modulus size per group-exchange method')
     # ---- rule 3c: the CA type / size a generated policy carries are the ones of the presented certificate ---------------------------------
     # (Policy.create trims CA fields that are empty; a certificate whose CA is not parsed yields a policy without them, and CA drift then passes.)
     # Shared with C11: recv_reply's walk over the host key blob interpreted per layout (props/_hostkey_rating.blob_layout_problems).
